@@ -188,3 +188,16 @@ def process(ctx, scns, tag, visit, batch=12000, nshards=14):
         for s in part:
             visit(s, evs[s["sid"]], rk.get(s["sid"], set()))
     return rej, drift, n
+
+
+def replay_only(ctx, sig_of):
+    """./check Cxx --replay replays/Cxx/<h>.json : re-runs the recorded scenario alone and lets TLC judge it again."""
+    s = ctx.replay["replay"]["scenario"]
+    if not os.path.exists(os.path.join(ctx.scratch, "specs.json")):
+        evs = ctx.drv("dumpspecs", {"ids": []}, prog="session")
+        ctx.write_json("specs.json", {"specs": evs[0]["specs"], "shuffling": evs[0]["shuffling"]})
+    rej, _, n = process(ctx, [s], "replayfile", lambda s, es, ks: None)
+    ctx.traces += n
+    for row, why in rej:
+        ctx.finding(sig_of(row, why), "%s (replayed scenario): %s" % (why, first_failure(row["ev"])), {"scenario": s, "why": why, "k": row["k"]})
+    return "model_checking", {"evaluations": n, "distinct_nontrivial": 1, "rule": "one recorded scenario replayed", "samples": [], "exhaustive": False}, []
